@@ -436,6 +436,27 @@ class StmtMixin:
             raise PathEnd()
         return
 
+    def fold_symbolic(self, label, seqv, init, step, line, start=1):
+        """functools.reduce(f, seq) as a loop with an invariant (contract.loops[label], over _acc, _i, _seq):
+        acc = seq[0]; for i in range(1, len(seq)): acc = f(acc, seq[i])."""
+        st = self.st
+        spec = self.contract.loops.get(label) if self.contract else None
+        if spec is None:
+            raise Unsupported("fold %s at line %d has no invariant in the contract" % (label, line))
+        n = L.len_(seqv.term)
+        st.env["_acc"] = init
+        self.check_invariant(spec, label, z3.IntVal(start), seqv, "entry", line)
+        st.env["_acc"] = self.fresh_like(init, "_acc") if not isinstance(init, ZV) else ZV(L.fresh("_acc"), init.tag)
+        i = L.fresh("i", L.I)
+        st.assume(start <= i)
+        st.assume(i <= n)
+        self.assume_invariant(spec, label, i, seqv)
+        if self.branch(i < n, line, tag="fold%s" % label):
+            st.env["_acc"] = step(st.env["_acc"], self.retag(L.nth(seqv.term, i), self.elem_tag(seqv)))
+            self.check_invariant(spec, label, i + 1, seqv, "preserved", line)
+            raise PathEnd()
+        return st.env.pop("_acc")
+
     def havoc(self, names, fields, spec):
         st = self.st
         for nme in sorted(names):
